@@ -32,6 +32,8 @@ type World struct {
 	srcFns  []*ssa.Function // every function whose source is in the module (incl. anonymous)
 	GOARCH  string
 	GOOS    string
+
+	devirtMemo map[*types.Var]*ssa.Function
 }
 
 // anchorErr is raised (via panic) when a named anchor cannot be resolved; the rule
